@@ -110,6 +110,21 @@ def gen_scenario(rng, tier, allow_delay=True, long_idle=True, modelname_bias=Fal
     sc["decoy"] = rng.random() < 0.25
     # a second session on the same object
     sc["prior_session"] = {"close_after_s": rng.choice([0.0, 0.02, 0.06, 0.15]), "reconnect_after_s": rng.choice([0.0, 0.0, 0.01, 0.5])} if rng.random() < 0.2 else None
+    # a burst far larger than anything the library itself submits ("every finite sequence of commands"): the backlog
+    # grows to the length of the burst. Drawn from a generator of its own, so that the other scenarios stay as they were
+    brng = random.Random(sc["seed"] ^ 0xB0057)
+    if brng.random() < 0.04:
+        n = brng.choice([70, 130, 300] if tier == "quick" else [70, 130, 300, 520, 1100])
+        burst = []
+        while len(burst) < n:
+            op = gen_op(brng, False)
+            if op[0] != "sleep":
+                burst.append(op)
+        progs[0] = burst
+        sc["burst"] = n
+        sc["delay_prob"] = 0
+        sc["slow_cb"] = None
+        sc["tail_idle"] = max(sc["tail_idle"], round(0.2 * (sum(1 for p in progs for o in p if o[0] != "sleep") + 8) + 2, 1))
     return sc
 
 
@@ -290,12 +305,35 @@ def mon_c01(s, require_all=True):
                 return f"write #{k} {data!r}: expected {want!r} (submission #{k} by {E[k][0]}); that text was already written: duplicate or reordering"
             return f"write #{k} {data!r}: expected {want!r} (submission #{k} by {E[k][0]})"
     if require_all and not s.disconnects and not s.sim.failure:
+        # every command submitted through the API while the connection was up entered the queue (per caller, in the
+        # caller's order): the record of the calls made is the harness's own, the queue puts are observed
+        by_th = {}
+        for th, it in enq_order(s.sim.events):
+            if isinstance(it, str):
+                by_th.setdefault(th, []).append(it)
+        sub_th = {}
+        for th, text in getattr(s, "submitted", []):
+            sub_th.setdefault(th, []).append(text)
+        for th, texts in sub_th.items():
+            got = by_th.get(th, [])
+            if got != texts:
+                k = next((i for i, (a, b) in enumerate(zip(got, texts)) if a != b), min(len(got), len(texts)))
+                if k < len(texts):
+                    return f"command #{k} submitted by {th} ({texts[k]!r}, of {len(texts)} while the connection was up) never entered the send queue: {len(got)} of them did"
         # "once the connection has stayed up and idle": nothing submitted for long enough to drain any backlog
         enqs = [e for e in s.sim.events if e["k"] == "Enq" and (e.get("marker") is None or "KEEP" in e["marker"]) and e["t"] <= getattr(s, "idle_done_at", 0)]
         if enqs:
             t_last = max(e["t"] for e in enqs)
             if getattr(s, "idle_done_at", 0) >= t_last + 2 * (len(enqs) + 2) * max(SPACING, code_spacing()) and getattr(s, "pre_close_writes", 0) < len(enqs):
                 return f"after staying idle for {(s.idle_done_at - t_last) / 1e6:.1f} s, only {s.pre_close_writes} of {len(enqs)} submitted commands/probes were written"
+            # the same for the caller's commands alone, when only keep-alive probes followed them: everything up to
+            # the last command has long been written
+            user = [i for i, e in enumerate(enqs) if e.get("marker") is None]
+            if user:
+                k_last = user[-1]
+                t_user = enqs[k_last]["t"]
+                if getattr(s, "idle_done_at", 0) >= t_user + 2 * (k_last + 3) * max(SPACING, code_spacing()) and getattr(s, "pre_close_writes", 0) <= k_last:
+                    return f"{(s.idle_done_at - t_user) / 1e6:.1f} s after the last command was submitted, only {s.pre_close_writes} lines were written although that command was submission #{k_last}"
     return None
 
 
